@@ -308,8 +308,82 @@ func sizeShapes(c *lp.Ctx, n int) gen.KeySet {
 	}
 }
 
+// packNibs packs half-bytes two per byte (a trailing single one is padded with 0).
+func packNibs(n []int) string {
+	b := make([]byte, 0, (len(n)+1)/2)
+	for i := 0; i < len(n); i += 2 {
+		lo := 0
+		if i+1 < len(n) {
+			lo = n[i+1]
+		}
+		b = append(b, byte(n[i]<<4|lo))
+	}
+	return string(b)
+}
+
+// prefixGrowthWitness is the key set of known finding K1 (found by the proof
+// attempt of C17_prefix_invariant): exactly 127 inner nodes with a step come
+// first in BFS order, then 2^d - 1 inner nodes without one; the root has no
+// step.  Prepending any byte gives the root a step, which adds 1 to every entry
+// of the InnerPrefixes presence rank index; entries that were 127 need one more
+// varint byte each, so the size grows by about (#inner nodes)/128 bytes.
+func prefixGrowthWitness(d int) []string {
+	var ks []string
+	for x := 0; x < 16; x++ {
+		for y := 0; y < 8; y++ {
+			if x == 15 && y == 7 {
+				continue
+			}
+			for a := 0; a < 2; a++ {
+				ks = append(ks, packNibs([]int{0, x, y, 0, a, 0}))
+			}
+		}
+	}
+	for v := 0; v < 1<<uint(d); v++ {
+		n := []int{1}
+		for i := d - 1; i >= 0; i-- {
+			n = append(n, (v>>uint(i))&1)
+		}
+		ks = append(ks, packNibs(n))
+	}
+	sort.Strings(ks)
+	return ks
+}
+
+func knownPrefixGrowth(c *lp.Ctx) {
+	const d = 11
+	ks := prefixGrowthWitness(d)
+	cs := NewCase(c.Rng, gen.KeySet{Keys: ks, Class: "K1-prefix-growth"}, "-", "none")
+	c.Case(cs.Key(), true)
+	if !build(c, cs) {
+		return
+	}
+	m1 := c.Do("trie.marshal")
+	pk := make([]string, len(ks))
+	for i, k := range ks {
+		pk[i] = "A" + k
+	}
+	cs2 := NewCase(c.Rng, gen.KeySet{Keys: pk, Class: "K1-prefix-growth+A"}, "-", "none")
+	if a := c.Do(cs2.Line()); a != "ok" {
+		return
+	}
+	m2 := c.Do("trie.marshal")
+	var l1, l2 int
+	var h string
+	fmt.Sscanf(m1, "ok %d %s", &l1, &h)
+	fmt.Sscanf(m2, "ok %d %s", &l2, &h)
+	c.Hit(fmt.Sprintf("K1-witness-delta:%d", l2-l1))
+	if l2-l1 > 16 || l1-l2 > 16 {
+		// a stable, short script identifies this witness in known_findings.txt
+		c.Violate(lp.Violation{What: "prepending a common prefix changes the size by at most a few bytes",
+			Script:   []string{"C17 witness K1: prefixGrowthWitness(d=11) (2302 keys, filter mode), prefix \"A\""},
+			Expected: fmt.Sprintf("%d +- 16", l1), Got: m2})
+	}
+}
+
 // genC17: filter-mode size is linear in the key count and independent of key length.
 func genC17(c *lp.Ctx) {
+	knownPrefixGrowth(c)
 	n := c.Pick(150, 800)
 	maxKeys := c.Pick(600, 6000)
 	for it := 0; it < n; it++ {
